@@ -22,6 +22,7 @@ RULE_TEXT = (
     "C08.c substitution happens iff the connection's stored style is pyformat/format; C08.d qmark: engine gets the "
     "same params object, text unsubstituted; C08.e executemany: one execute per element, in order."
     " C08.f = C09.e."
+    " C08.g the status statement of a nop-matched statement runs without the user's parameters."
 )
 TRUSTED = ["CPython ast", "snowflake.connector.converter.SnowflakeConverter.to_snowflake/escape/quote", "DuckDB prepared statements"]
 
